@@ -14,6 +14,9 @@
 
 #[path = "../../c05/src/cobworld.rs"]
 mod cobworld;
+mod idrun;
+#[path = "../../c08/src/inject.rs"]
+mod inject;
 
 use std::collections::BTreeSet;
 
@@ -104,6 +107,54 @@ fn run_case(w: &mut World, input: &str) -> (String, Outcome) {
     (canon, o)
 }
 
+/// Identity family: `idc <order2> id <repoDoc> <docs> <sigs> <vtable> <order> <op>…` (the part from `id` on is
+/// the scenario language of the C04 harness; `vtable`, `order` and `order2` — the evaluation order of the
+/// surviving sub-history — are computed here by the real code and written into the recorded case).
+fn run_identity(iw: &mut inject::World, repos: &mut idrun::Repos, input: &str) -> (String, Outcome) {
+    let body = if input.starts_with("idc ") { input.splitn(3, ' ').nth(2).unwrap_or("") } else { input };
+    let Some(mut case) = idrun::parse(body) else {
+        return (input.to_string(), Outcome::new("bad-case").trivial().tag("bad-case"));
+    };
+    let run = match idrun::run_case(iw, repos, &mut case) {
+        Ok(r) => r,
+        Err(e) => return (input.to_string(), Outcome::new(format!("harness-error:{e}")).trivial().tag("harness-error")),
+    };
+    let mut o = Outcome::new("");
+    o.tags.push("identity".into());
+    if run.init.is_none() {
+        o.output = format!("{}=>-", run.output);
+        o.nontrivial = false;
+        o.tags.push("id-init-err".into());
+        return (format!("idc - {}", idrun::render(&case)), o);
+    }
+    let sub = match idrun::eval_sub(iw, repos, &run, &run.tips) {
+        Ok(s) => s,
+        Err(e) => return (input.to_string(), Outcome::new(format!("harness-error:{e}")).trivial().tag("harness-error")),
+    };
+    o.output = format!("{}=>{}", run.output, sub.output);
+    let rejected: Vec<usize> = run.steps.iter().filter(|s| !s.1).map(|s| s.0).collect();
+    o.tags.push(if rejected.is_empty() { "id-no-rejection" } else { "id-rejection" }.into());
+    o.nontrivial = !rejected.is_empty();
+    if run.json != sub.json || run.tips != sub.tips {
+        // the recorded mechanism: an entry accepted with concurrent siblings in the whole history that, evaluated
+        // without its (pruned) siblings, has no concurrent entry and is rejected
+        let first_diff = sub.steps.iter().find(|(k, ok, _)| run.steps.iter().find(|s| s.0 == *k).map(|s| s.1) != Some(*ok));
+        let by_mechanism = match first_diff {
+            Some((k, ok, conc)) => {
+                let full = run.steps.iter().find(|s| s.0 == *k);
+                !*ok && *conc == 0 && matches!(full, Some(f) if f.1 && f.2 > 0)
+            }
+            None => false,
+        };
+        let class = if by_mechanism { "identity-concurrent-sibling-pruned" } else { "rejected-change-left-trace" };
+        o.violations.push((
+            class.into(),
+            format!("whole history: {} {:?} / surviving history alone: {} {:?}", run.output, run.tips, sub.output, sub.tips),
+        ));
+    }
+    (format!("idc {} {}", idrun::show_order(&sub.order), idrun::render(&case)), o)
+}
+
 fn show_tips(t: &[usize]) -> String {
     if t.is_empty() { "-".into() } else { t.iter().map(|x| x.to_string()).collect::<Vec<_>>().join(",") }
 }
@@ -134,9 +185,11 @@ fn planted(rng: &mut Rng, n: usize, pos: usize, kind: &str) -> String {
 fn main() {
     let mut ctx = Ctx::from_args("C06");
     let mut w = World::new();
+    let mut iw = inject::World::new();
+    let mut repos = idrun::Repos { repos: Default::default() };
     let (inputs, is_replay) = ctx.fixed_inputs();
     for i in inputs {
-        let (canon, o) = run_case(&mut w, &i);
+        let (canon, o) = if i.starts_with("id") { run_identity(&mut iw, &mut repos, &i) } else { run_case(&mut w, &i) };
         ctx.count("corpus-or-replay");
         ctx.record(&canon, o);
     }
@@ -166,6 +219,17 @@ fn main() {
                 w = World::new();
             }
             let (canon, o) = run_case(&mut w, &input);
+            ctx.record(&canon, o);
+        }
+        // identity histories (generator of the C04 harness: delegates and strangers, real signatures over
+        // documents or other bytes, duplicated verdicts, redactions, edits, multi-action ops)
+        for _ in 0..ctx.size(60, 1200) {
+            if iw.used % 50 == 49 {
+                iw = inject::World::new();
+                repos = idrun::Repos { repos: Default::default() };
+            }
+            let input = idrun::gen_case(&mut rng);
+            let (canon, o) = run_identity(&mut iw, &mut repos, &input);
             ctx.record(&canon, o);
         }
     }
